@@ -497,7 +497,13 @@ def _chunk_iter(
         total += length
         if total > max_total_size:
             raise ChunkedEncodingError("Request body exceeds maximum allowed size")
-        chunk = f.read(length + 2)
+        # wsgi.input may return fewer bytes than asked for
+        chunk = b""
+        while len(chunk) < length + 2:
+            data = f.read(length + 2 - len(chunk))
+            if not data:
+                raise ChunkedEncodingError("Truncated chunked stream")
+            chunk += data
         yield chunk[:-2]
 
 
